@@ -369,7 +369,7 @@ func (fr *frame) eqValue(t types.Type, x, y value) value {
 		}
 		if !types.Comparable(x.t) {
 			if _, ok := x.t.(*hostType); !ok {
-				panic(targetPanic{iface{t: fr.i.errType, v: "runtime error: comparing uncomparable type " + x.t.String()}})
+				panic(targetPanic{iface{t: fr.i.errType, v: "runtime error: comparing uncomparable type " + x.t.String()}, fr.stack()})
 			}
 		}
 		return fr.eqValue(x.t, x.v, yi.v)
@@ -440,6 +440,12 @@ func (fr *frame) unop(instr *ssa.UnOp, x value) value {
 		if px == nil {
 			fr.rtPanic("invalid memory address or nil pointer dereference")
 		}
+		if pv, isPoison := (*px).(poisonVal); isPoison {
+			if fr.i.inInit {
+				return pv
+			}
+			panic(unsupported("use of global %s whose package initialiser is not modelled", pv.name))
+		}
 		return load(deref(instr.X.Type()), px)
 	case token.NOT:
 		return fr.not(x)
@@ -475,7 +481,7 @@ func typeAssert(fr *frame, instr *ssa.TypeAssert, itf iface) value {
 	}
 	if err != "" {
 		if !instr.CommaOk {
-			panic(targetPanic{iface{t: fr.i.errType, v: err}})
+			panic(targetPanic{iface{t: fr.i.errType, v: err}, fr.stack()})
 		}
 		return tuple{zero(instr.AssertedType), false}
 	}
@@ -698,7 +704,7 @@ func callBuiltin(caller *frame, callpos token.Pos, fn *ssa.Builtin, args []value
 		return nil
 
 	case "panic":
-		panic(targetPanic{args[0]})
+		panic(targetPanic{args[0], caller.stack()})
 
 	case "recover":
 		return doRecover(caller)
